@@ -371,8 +371,12 @@ NUM = ATOMS_NUM + VECS + MATS + NESTED_NUM + REALS
 ALLOPS = NUM + STRS + STRUCT
 
 A2 = ["+", "-", "*", "%", "&", "|", "=", "<", ">", "L+", "L-", "L*", "L%", "L&", "L|", "L=", "L<", "L>",
-      "Lnc", "Ldec", "proj", "nproj", "named", "py"]
-S2 = [",", "L,", "Lsnd", "Lfst", "Lnest"]
+      "Lnc", "Ldec", "proj", "nproj", "named", "py",
+      "Ssub", "Sdiv", "Srem", "Spow", "Slt", "Sidiv", "Lxx", "Lyy"]
+S2 = [",", "L,", "Lsnd", "Lfst", "Lnest", "Sjoin"]
+# inline one-operator lambdas whose arguments are swapped / repeated / single: an idiom recogniser must not take them
+# for the bare operator
+SWAPPED = {"Ssub", "Sdiv", "Sjoin", "Srem", "Spow", "Slt", "Sidiv", "Lxx", "Lyy", "Lsnd", "Lfst"}
 A1 = ["-", "L-", "Linc", "Ldbl", "Lcap", "Lhalf", "proj", "named", "py", "pycap", "Lnewton"]
 # While / Scan-While tests answering truth values other than 0/1: (test, verb, starting operands)
 TRUTH_CASES = [("size", "Ldrop", [L(1, 2, 3), S("abc"), L(7), L(), S(""), L(L(1, 2), L(3))]),
@@ -428,9 +432,11 @@ def universe(tier, rng):
                 if v == "|" and ar == 1 and (isinstance(a, (int, float)) or a[0] in ("c", "d", "s")):
                     continue          # Reverse of an atom (a character of a string included) is C01's subject
                 shortcut = ar == 2 and v in OPS and adv in ("over", "scan") and is_num(a) and not isinstance(a, (int, float))
+                swapcore = (ar == 2 and v in SWAPPED and adv in ("over", "scan", "overn", "scann", "each2", "eachpair")
+                            and a in (L(3, 1, 2), L(4, -2, 7, 1), L(L(1, 2), L(3, 4)), L(L(6, 5, 4), L(1, 2, 3)), L(1.5, 2.25, 0.5)))
                 isatom = isinstance(a, (int, float)) or a[0] in ("c", "d")
                 if adv in MONADIC_USE:
-                    add({"adv": adv, "verb": v, "a": a}, core=shortcut or a in (L(3, 1, 2), S("abc"), 5) or v in ("pycap", "Lnewton"))
+                    add({"adv": adv, "verb": v, "a": a}, core=shortcut or swapcore or a in (L(3, 1, 2), S("abc"), 5) or v in ("pycap", "Lnewton"))
                 elif adv in ("while", "scanwhile"):
                     for p in PREDS:
                         add({"adv": adv, "verb": v, "a": a, "left": p}, core=(a == 1 and p == "lt10"))
@@ -447,14 +453,14 @@ def universe(tier, rng):
                     if not arithmetic:
                         lefts = lefts + [S("xy"), ["c", "z"], ["d", [1, 2]]]
                     for l in lefts:
-                        add({"adv": adv, "verb": v, "a": a, "left": l}, core=(a in (L(3, 1, 2), S("abc")) and l in (7, 0, 10, L(10, 20, 30))))
+                        add({"adv": adv, "verb": v, "a": a, "left": l}, core=(a in (L(3, 1, 2), S("abc")) and l in (7, 0, 10, L(10, 20, 30))) or (swapcore and l in (0, 10, 7, L(10, 20), L(1, 2))))
     for p, v, starts in TRUTH_CASES:
         for a in starts:
             for adv in ("while", "scanwhile"):
                 add({"adv": adv, "verb": v, "a": a, "left": p}, core=True)
     # chains: every first adverb of monadic use x every adverb of monadic verbs (+ one 3-chain)
     cverbs1 = ["-", "#", "Lid", "Lone", "Lcap", "|", "py"]
-    cverbs2 = ["+", ",", "&", "Lsnd", "Lnc", "L+", "py", "-"]
+    cverbs2 = ["+", ",", "&", "Lsnd", "Lnc", "L+", "py", "-", "Ssub", "Sjoin", "Sdiv", "Lxx"]
     cops = [L(L(1, 2), L(3, 4)), L(L(1, 2, 3), L(4, 5, 6), L(7, 8, 9)), L(1, L(2, L(3, L(4), 5), 6), 7), L(3, 1, 2), L(L(5)), L(), 5,
             L(S("ab"), S("cd")), L(L(1), L(2, 3)), L(L(0.1, 0.2), L(0.3, 0.4)), ["d", [1, 2], [3, 4]]]
     calm1 = ["Lid", "Lone", "Lcap", "#", "-", "pycap"]      # verbs under which a repeated application stays bounded
